@@ -19,11 +19,11 @@ func init() {
 
 var diskErrnos = map[string][]string{
 	"remove":   {"EPERM", "EIO"},
-	"open":     {"EACCES", "ENOSPC", "EIO"},
+	"open":     {"EACCES", "ENOSPC", "EIO", "ENOENT"}, // ENOENT: the directory has gone
 	"write":    {"ENOSPC", "EIO"},
 	"fsync":    {"EIO"},
 	"close":    {"EIO"},
-	"rename":   {"EIO", "EACCES"},
+	"rename":   {"EIO", "EACCES", "ENOENT"}, // ENOENT: the temporary file was removed under the writer
 	"fsyncdir": {"EIO"},
 	"readfile": {"EIO"},
 }
@@ -72,6 +72,23 @@ func genC05(seed uint64, run int, tier string) *Plan {
 			tp.Ops = append(tp.Ops, Op{K: "crash", N: r.IntN(2), Tag: pick(r, powerModes...), Ms: int64(r.IntN(8))})
 		}
 	}
+	if r.IntN(5) == 0 {
+		// retention with second-scale ages, an idle period, then calls that change nothing and calls that change
+		// something while the disk is full, then room again: what clients see stays what the file holds
+		p.Cfg.MinOplog = 1 + r.IntN(2)
+		p.Cfg.MaxOplog = p.Cfg.MinOplog + r.IntN(3)
+		p.Cfg.MinAgeS, p.Cfg.MaxAgeS = 1, pick(r, int64(1), 2)
+		noop := Op{K: "deleteMany", DB: "db", C: "c0", F: jd(bson.D{{Key: "_id", Value: "nobody"}})}
+		tp.Ops = append(tp.Ops, Op{K: "sleep", Ms: int64(1100 + r.IntN(3000))})
+		if r.IntN(3) != 0 {
+			tp.Ops = append(tp.Ops, Op{K: "diskfull", N: 1})
+		}
+		tp.Ops = append(tp.Ops, noop)
+		if r.IntN(2) == 0 {
+			tp.Ops = append(tp.Ops, Op{K: "insertOne", DB: "db", C: "c0", D: jd(g.doc(false))}, noop)
+		}
+		tp.Ops = append(tp.Ops, Op{K: "diskfull"}, Op{K: "insertOne", DB: "db", C: "c0", D: jd(g.doc(false))})
+	}
 	p.Tasks = []TaskPlan{tp}
 	// faults: sampled from the space the thorough sweep enumerates
 	nf := pick(r, 0, 1, 1, 1, 2)
@@ -79,7 +96,7 @@ func genC05(seed uint64, run int, tier string) *Plan {
 		at := r.IntN(10 * len(tp.Ops))
 		switch r.IntN(3) {
 		case 0:
-			p.Faults = append(p.Faults, Fault{Kind: "disk-err", At: at, Errno: pick(r, "EIO", "ENOSPC", "EACCES", "EPERM"), N: r.IntN(4000)})
+			p.Faults = append(p.Faults, Fault{Kind: "disk-err", At: at, Errno: pick(r, "EIO", "ENOSPC", "EACCES", "EPERM", "ENOENT"), N: r.IntN(4000)})
 		default:
 			f := Fault{Kind: pick(r, "disk-kill-before", "disk-kill-after"), At: at, N: r.IntN(5000)}
 			if r.IntN(3) != 0 {
@@ -235,6 +252,10 @@ func c05Client(e *Env, task *simrt.Task) {
 				return
 			}
 			continue
+		case "diskfull":
+			e.diskFull = op.N == 1
+			e.logf("[client] disk full = %v", e.diskFull)
+			continue
 		case "crash":
 			// crash while idle: everything acknowledged must survive
 			var pw *Power
@@ -330,6 +351,11 @@ func c05Client(e *Env, task *simrt.Task) {
 			return
 		}
 		// acknowledged
+		if attempt == "" && visible != acked {
+			// (the expiry interval of these runs is an hour: nobody else commits)
+			e.violate(violation("C05", "visible-differs-from-stored", "nothing-stored", fmt.Sprintf("%s stored nothing but the state visible to clients changed", opStr(op))))
+			return
+		}
 		if attempt != "" {
 			if visible != attempt {
 				e.violate(violation("C05", "visible-differs-from-stored", "", "the state visible after a successful commit is not the one that was stored"))
